@@ -117,6 +117,17 @@ class Interp:
         if name in self.tables:
             return self.tables[name]
         expr = self.module.assigns.get(name)
+        if expr is not None and not isinstance(expr, (ast.List, ast.Tuple)):
+            # a table computed at import time from pure integer code: evaluated by the checker's interpreter
+            from .minieval import Mini, Unsupported
+
+            try:
+                vals = Mini(self.repo, self.module).ev(expr, {})
+            except Unsupported as ex:
+                raise NonAffine(f"{name} is neither a literal table nor an evaluable table expression ({ex})")
+            if isinstance(vals, (list, tuple)) and all(isinstance(v, int) for v in vals):
+                self.tables[name] = list(vals)
+                return self.tables[name]
         if not isinstance(expr, (ast.List, ast.Tuple)):
             raise NonAffine(f"{name} is not a literal table")
         vals = []
